@@ -110,6 +110,15 @@ pub fn poll(sim: &Sim, who: &str, rx: &mut AnyLink, wire: &WireRef) -> PollOut {
     }
 }
 
+/// One send through the real `try_send_packet` of a link object whose receive side is `rxwire`
+/// (a call into the object is in progress as far as its devices are concerned).
+pub fn send_on(sim: &Sim, who: &str, tx: &mut AnyLink, p: &Packet, rxwire: &WireRef) -> Result<Result<(), InterfaceError>, Crash> {
+    rxwire.borrow_mut().in_poll = true;
+    let r = send(sim, who, tx, p);
+    rxwire.borrow_mut().in_poll = false;
+    r
+}
+
 /// One send through the real `try_send_packet`.
 pub fn send(sim: &Sim, who: &str, tx: &mut AnyLink, p: &Packet) -> Result<Result<(), InterfaceError>, Crash> {
     sim.event(EV_SEND, hash_packet(p), 0, || {
